@@ -157,6 +157,8 @@ def build(cfg, float_mode=False):
              level_params={'dt': cfg['dt'], 'restol': cfg['restol'], 'residual_type': cfg.get('residual_type', 'full_abs'),
                            'nsweeps': ([cfg.get('nsweeps', 1)] * (NL - 1) + [1]) if NL > 1 else cfg.get('nsweeps', 1)},
              step_params={'maxiter': cfg['maxiter']})
+    if cfg.get('dt_initial') is not None:
+        d['level_params']['dt_initial'] = cfg['dt_initial']  # (a declared level parameter; the step-size spreader uses it as a floor near Tend)
     if cfg.get('inexact'):
         # the shipped NewtonInexactness controller sets problem.newton_tol from the residual after every iteration (iteration 0 included)
         from pySDC.implementations.convergence_controller_classes.inexactness import NewtonInexactness
